@@ -161,6 +161,7 @@ const (
 	FaultSecond          // the SECOND invocation of that (node, field) in the run fails, the first succeeds (a stateful resolver; only distinguishable where a field is invoked twice for one position: merged response keys)
 	FaultShared          // every failing call returns the same *ggql.Error instance (an application's sentinel error)
 	FaultTwin            // a group of two members that carry the SAME text (a batch lookup answering one sentinel per missing key): still one entry per member
+	FaultTwoCauses       // ONE error that has two causes (Unwrap() []error, as errors.Join or two %w give): one failure, one entry
 )
 
 // ArgRecord is what a resolver received.
